@@ -88,4 +88,17 @@ def _both_change_cell_type(case, f):
     return any(k in l and k in r and l[k] != t and r[k] != t for k, t in b.items())
 
 
-DISCRIMINATORS = {"both_sides_change_cell_type": _both_change_cell_type}
+def _leftover_removed(case, f):
+    """The base holds a LOCAL_/REMOTE_ attachment name (named in the message) that a side no longer has in some cell."""
+    import re
+    m = re.search(r"'((?:LOCAL|REMOTE)_[^']*)'", f.get("msg") or "")
+    if not m:
+        return False
+    name = m.group(1)
+
+    def count(nb):
+        return sum(1 for c in nb["cells"] if name in (c.get("attachments") or {}))
+    return count(case["base"]) > 0 and (count(case["local"]) < count(case["base"]) or count(case["remote"]) < count(case["base"]))
+
+
+DISCRIMINATORS = {"both_sides_change_cell_type": _both_change_cell_type, "leftover_attachment_removed_by_a_side": _leftover_removed}
